@@ -14,7 +14,8 @@ DRV=$V/driver/target/release/ckb-facts
 mkdir -p "$OUT" "$TGT"
 rm -f "$OUT"/*.jsonl
 # force re-analysis of workspace members only (names from cargo metadata)
-if [ -d "$TGT/debug/.fingerprint" ]; then
+# (CKB_FACTS_INCREMENTAL=1, development harness only: keep the fingerprints and let cargo re-check just the crates whose sources changed)
+if [ -d "$TGT/debug/.fingerprint" ] && [ -z "${CKB_FACTS_INCREMENTAL:-}" ]; then
   for n in $(cd $REPO && cargo +nightly metadata --no-deps --offline --format-version 1 | python3 -c 'import json,sys; print(" ".join(p["name"] for p in json.load(sys.stdin)["packages"]))'); do
     for d in "$TGT/debug/.fingerprint/$n"-[0-9a-f]*; do
       [ -d "$d" ] && rm -rf "$d"
@@ -24,4 +25,4 @@ fi
 cd $REPO
 LD_LIBRARY_PATH=$SYSROOT/lib RUSTFLAGS="-Zmir-opt-level=0 -Awarnings" RUSTC_WORKSPACE_WRAPPER=$DRV \
   CKB_FACTS_DIR="$OUT" CARGO_TARGET_DIR="$TGT" cargo +nightly check --workspace --offline -j 16 >"$OUT/cargo.log" 2>&1 || { tail -40 "$OUT/cargo.log" >&2; exit 2; }
-ls "$OUT"/*.jsonl >/dev/null
+[ -n "${CKB_FACTS_INCREMENTAL:-}" ] || ls "$OUT"/*.jsonl >/dev/null
